@@ -141,6 +141,30 @@ pub fn gen_live(rng: &mut Rng, thorough: bool) -> J {
 pub fn gen_mix(rng: &mut Rng, _thorough: bool) -> J {
     // a sub of k >= 2 discrete leaves (or an array of them); parents pairwise different in >= 2 positions
     let k = 2 + rng.below(4) as usize;
+    if rng.chance(1, 7) {
+        // a sub with ONE member whose value is itself composite: recombination still happens below it
+        let mut inner = FxHashMap::default();
+        for k in ["a", "b", "c", "d"] { inner.insert(k.to_string(), Box::new(spec::Node::Bool { init: false })); }
+        let mut outer = FxHashMap::default();
+        outer.insert("point".to_string(), Box::new(spec::Node::Sub { map: inner }));
+        let spec = spec::Spec(spec::Node::Sub { map: outer });
+        let mk = |b: bool| { let mut m = FxHashMap::default(); for k in ["a", "b", "c", "d"] { m.insert(k.to_string(), Box::new(value::Node::Bool(b))); } let mut o = FxHashMap::default(); o.insert("point".to_string(), Box::new(value::Node::Sub(m))); value::Value(value::Node::Sub(o)) };
+        let parents = vec![mk(false), mk(true)];
+        let refs: Vec<&value::Value> = parents.iter().collect();
+        let sp = *rng.pick(&[0.0, 0.25]);
+        let cparams = CrossoverParams { crossover_prob: 1.0, selection_pressure: sp };
+        let crossover = Crossover::new();
+        let mut outs = Vec::new();
+        for _ in 0..64 {
+            let mut path_ctx = PathContext::default();
+            for p in &parents { path_ctx.add_nodes_for(p); }
+            let mut std_rng = StdRng::seed_from_u64(rng.next());
+            let out = crossover.crossover(&spec, &refs, &cparams, &mut path_ctx, &mut std_rng);
+            outs.push(enc_value(&out.0));
+        }
+        return json!({"mode": "mix", "singleMemberSub": true, "spec": enc_spec(&spec.0), "parents": parents.iter().map(|p| enc_value(&p.0)).collect::<Vec<_>>(),
+                      "sp": crate::ops::pclass(sp), "outs": outs});
+    }
     if rng.chance(1, 6) {
         // three parents at a variant node, two of them on the same alternative with different payloads: when that
         // alternative is picked, its payloads are recombined (mixed), not one parent's copied
@@ -419,9 +443,17 @@ fn f_hash(v: &J, _s: f64) -> f64 {
 }
 
 pub fn twin_trace(spec_idx: usize, nc: usize, sample_size: usize, yields: u64, budget: usize, with_guess: bool) -> J {
+    twin_trace_g(spec_idx, nc, sample_size, yields, budget, if with_guess { 1 } else { 0 })
+}
+
+/// guess_kind: 0 none, 1 the spec's own initial value, 2 (spec 4 only: a map of reals) a guess with sparse keys that
+/// collide in small hash tables - the kind of value a best-seen of an earlier run has
+pub fn twin_trace_g(spec_idx: usize, nc: usize, sample_size: usize, yields: u64, budget: usize, guess_kind: u64) -> J {
+    let with_guess = guess_kind == 1;
     let spec_yaml = twin_spec(spec_idx);
     let spec_yaml = spec_yaml.as_str();
-    let guess = if with_guess { Some(spec_util::from_yaml_str(spec_yaml).unwrap().initial_value().to_json()) } else { None };
+    let guess = if with_guess { Some(spec_util::from_yaml_str(spec_yaml).unwrap().initial_value().to_json()) }
+                else if guess_kind == 2 { Some(json!({"1": 0.25, "5": 0.5, "17": 0.75, "33": 0.125})) } else { None };
     let (log, res) = run_once(spec_yaml, f_hash, 1.0, nc, sample_size, yields, budget, guess);
     json!({
         "evals": log.iter().map(|(s, i, v, x)| json!([s, i, v, x.to_bits()])).collect::<Vec<_>>(),
@@ -436,21 +468,24 @@ pub fn gen_twin(rng: &mut Rng, thorough: bool, exe: &str) -> J {
     let yields = if nc == 1 { 0 } else { *rng.pick(&[0u64, 3, 5]) };
     let budget = if thorough { 500 + rng.below(3000) as usize } else { 100 + rng.below(500) as usize };
     let with_guess = rng.chance(1, 4);
+    // spec 4 (a resizable map of reals, at most 6 elements): half of the time with a sparse-key guess
+    let sparse = spec_idx == 4 && rng.chance(1, 2);
     // before the first run, this thread runs something else (other specs): a run is a function of ITS inputs, not of what
     // the thread or the process did before (the fresh process below has done nothing before)
     for k in 1..4 { let _ = twin_trace(spec_idx + k * 3 + 1, 1, 1, 0, 40, false); }
-    let a = twin_trace(spec_idx, nc, sample_size, yields, budget, with_guess);
-    let b = twin_trace(spec_idx, nc, sample_size, yields, budget, with_guess);
+    let gk: u64 = if sparse { 2 } else if with_guess { 1 } else { 0 };
+    let a = twin_trace_g(spec_idx, nc, sample_size, yields, budget, gk);
+    let b = twin_trace_g(spec_idx, nc, sample_size, yields, budget, gk);
     // third run: a fresh process
     let pinned = rng.chance(1, 2);
     let mut cmd = std::process::Command::new(exe);
     if pinned { cmd.env("CVH_PIN_ONE_CPU", "1"); }
     let out = cmd
-        .args(["twin-child", &spec_idx.to_string(), &nc.to_string(), &sample_size.to_string(), &yields.to_string(), &budget.to_string(), if with_guess { "1" } else { "0" }])
+        .args(["twin-child", &spec_idx.to_string(), &nc.to_string(), &sample_size.to_string(), &yields.to_string(), &budget.to_string(), &gk.to_string()])
         .output();
     let c: J = match out { Ok(o) => serde_json::from_slice(&o.stdout).unwrap_or(json!({"childError": String::from_utf8_lossy(&o.stderr).to_string()})), Err(e) => json!({"childError": e.to_string()}) };
     // guess = the spec's own initial value must give the same run as no guess (C11's same-run clause)
-    let d = twin_trace(spec_idx, nc, sample_size, yields, budget, !with_guess);
+    let d = if sparse { a.clone() } else { twin_trace(spec_idx, nc, sample_size, yields, budget, !with_guess) };
     let first_diff = |x: &J, y: &J| -> J {
         let (ex, ey) = (x["evals"].as_array().cloned().unwrap_or_default(), y["evals"].as_array().cloned().unwrap_or_default());
         for i in 0..ex.len().max(ey.len()) { if ex.get(i) != ey.get(i) { return json!({"index": i, "a": ex.get(i), "b": ey.get(i)}); } }
